@@ -203,7 +203,9 @@ class AList(object):
         self.uid = origin or "anon"
 
     def __repr__(self):
-        return "%s%r" % ("generic" if self.generic else "", self.items)
+        src = getattr(self, "source", None)
+        tag = ("generic<%s>%s" % (src, "|filtered" if getattr(self, "filtered", False) else "")) if (self.generic and src) else ("generic" if self.generic else "")
+        return "%s%r" % (tag, self.items)
 
 
 class AFeatList(object):
@@ -256,9 +258,10 @@ def _is_generator(fn: ast.FunctionDef) -> bool:
 
 
 def _gen_collect(I, lst, v):
-    lst.items.append(v)
-    if lst.depth < I.loop_depth:
+    if lst.depth < I.loop_depth and not lst.generic:
         lst.generic = True
+        lst.generic_from = len(lst.items)
+    lst.items.append(v)
     return None
 
 
@@ -327,13 +330,51 @@ class ABoolTerm(object):
 SUMMARIES_USED = set()
 
 
+class ChainEnv(dict):
+    """Variables of a nested function: its own names, falling through to the
+    defining frame's variables as they are at the time of the read (closures
+    share the enclosing variables, they do not copy them)."""
+
+    def __init__(self, parent, local=None):
+        dict.__init__(self, local or {})
+        self.parent = parent
+
+    def __missing__(self, k):
+        return self.parent[k]
+
+    def get(self, k, d=None):
+        if dict.__contains__(self, k):
+            return dict.__getitem__(self, k)
+        return self.parent.get(k, d)
+
+    def __contains__(self, k):
+        return dict.__contains__(self, k) or k in self.parent
+
+    def keys(self):
+        out = list(dict.keys(self))
+        out += [k for k in self.parent.keys() if not dict.__contains__(self, k)]
+        return out
+
+    def __iter__(self):
+        return iter(self.keys())
+
+    def items(self):
+        return [(k, self[k]) for k in self.keys()]
+
+    def values(self):
+        return [self[k] for k in self.keys()]
+
+    def local_items(self):
+        return list(dict.items(self))
+
+
 class ALambda(Term):
-    """A lambda: its body is evaluated when it is called, in the variables of
-    the defining frame as they are *then* (late binding); default values of
-    its parameters are evaluated when it is defined."""
+    """A lambda or a nested def: its body is evaluated when it is called, in the
+    variables of the defining frame as they are *then* (late binding); default
+    values of its parameters are evaluated when it is defined."""
 
     def __init__(self, node, frame, defaults):
-        Term.__init__(self, "lambda")
+        Term.__init__(self, "lambda" if isinstance(node, ast.Lambda) else "closure:" + node.name)
         self.node, self.frame, self.defaults = node, frame, defaults
 
 
@@ -345,6 +386,23 @@ class AExitStack(object):
 
     def __repr__(self):
         return "<ExitStack %d callback(s)>" % len(self.callbacks)
+
+
+class ACallable(object):
+    """functools.partial / operator.methodcaller / attrgetter / itemgetter / operator.<op>: applied by call_value"""
+
+    def __init__(self, kind, *data, **kw):
+        self.kind, self.data, self.kw = kind, data, kw
+
+    def __repr__(self):
+        return "<%s %s>" % (self.kind, ", ".join(map(repr, self.data)))
+
+
+class ARepeat(object):
+    """itertools.repeat(x): x, as often as the other iterables of a map/zip need it"""
+
+    def __init__(self, value):
+        self.value = value
 
 
 class AIter(object):
@@ -372,11 +430,13 @@ class ANT(tuple):
     """An instance of a namedtuple class: a tuple whose items also have names."""
 
     _nt_fields = ()
+    _nt_class = None  # the repo class deriving from the namedtuple, when there is one (methods, properties)
 
     @classmethod
-    def make(cls, fields, values):
+    def make(cls, fields, values, klass=None):
         o = cls(values)
         o._nt_fields = tuple(fields)
+        o._nt_class = klass
         return o
 
 
@@ -384,11 +444,11 @@ class AGenCall(object):
     """A call of a repo generator function used as the iterable of a for loop:
     its body is run interleaved with the loop body (lazy iteration)."""
 
-    def __init__(self, fi, args, kwargs):
-        self.fi, self.args, self.kwargs = fi, args, kwargs
+    def __init__(self, fi, args, kwargs, closure_frame=None):
+        self.fi, self.args, self.kwargs, self.closure_frame = fi, args, kwargs, closure_frame
 
     def __repr__(self):
-        return "<generator %s>" % self.fi.qualname
+        return "<generator %s>" % (getattr(self.fi, "qualname", None) or getattr(getattr(self.fi, "node", None), "name", "?"))
 
 
 class ConsumerSignal(Exception):
@@ -932,7 +992,8 @@ class Interp(object):
         n = len(self.frames)
         for i, f in enumerate(self.frames):
             pre = "^" * (n - 1 - i)
-            for k, v in f.env.items():
+            items = f.env.local_items() if isinstance(f.env, ChainEnv) else f.env.items()
+            for k, v in items:
                 out[pre + k] = v
         return out
 
@@ -1008,6 +1069,20 @@ class Frame(object):
             return self.while_loop(st)
         if isinstance(st, ast.Try):
             return self.try_stmt(st)
+        if isinstance(st, ast.Match):
+            return self.match_stmt(st)
+        if isinstance(st, ast.FunctionDef):
+            if st.decorator_list and not all(decorator_name(d) in ("wraps",) for d in st.decorator_list):
+                self.unsupported(st, "decorated nested function")
+            a = st.args
+            params = [x.arg for x in a.posonlyargs + a.args]
+            dvals = [self.expr(d) for d in a.defaults]
+            defaults = dict(zip(params[len(params) - len(dvals):], dvals))
+            for x, d in zip(a.kwonlyargs, a.kw_defaults):
+                if d is not None:
+                    defaults[x.arg] = self.expr(d)
+            self.env[st.name] = ALambda(st, self, defaults)
+            return
         if isinstance(st, ast.Continue):
             raise LoopContinue()
         if isinstance(st, ast.Break):
@@ -1037,6 +1112,104 @@ class Frame(object):
             return self.with_stmt(st, 0)
         self.unsupported(st, "statement")
 
+    def match_stmt(self, st: ast.Match):
+        """match/case: the first case whose pattern matches the subject (and whose guard holds) runs"""
+        I = self.I
+        subject = self.expr(st.subject)
+        for case in st.cases:
+            binds: Dict[str, object] = {}
+            if self.pattern_matches(case.pattern, subject, binds, st):
+                saved = dict(self.env)
+                self.env.update(binds)
+                if case.guard is not None and not I.truth(self.expr(case.guard), case.guard):
+                    self.env = saved
+                    continue
+                return self.block(case.body)
+        return None
+
+    def pattern_matches(self, pat, v, binds, node) -> bool:
+        I = self.I
+        if isinstance(pat, ast.MatchAs):
+            if pat.pattern is not None and not self.pattern_matches(pat.pattern, v, binds, node):
+                return False
+            if pat.name is not None:
+                binds[pat.name] = v
+            return True
+        if isinstance(pat, ast.MatchOr):
+            for alt in pat.patterns:
+                b2 = {}
+                if self.pattern_matches(alt, v, b2, node):
+                    binds.update(b2)
+                    return True
+            return False
+        if isinstance(pat, ast.MatchSingleton):
+            return I.identical(v, pat.value) if hasattr(I, "identical") else (v is pat.value)
+        if isinstance(pat, ast.MatchValue):
+            want = self.expr(pat.value)
+            r = I.cmp(ast.Eq(), v, want, node)
+            return I.truth(r, node)
+        if isinstance(pat, ast.MatchClass):
+            cls = self.expr(pat.cls)
+            if not lib_isinstance(self, v, cls, node):
+                return False
+            if pat.patterns:
+                self.unsupported(node, "positional sub-patterns of a class pattern")
+            for name, sub in zip(pat.kwd_attrs, pat.kwd_patterns):
+                if not self.pattern_matches(sub, self.getattr(v, name, node), binds, node):
+                    return False
+            return True
+        if isinstance(pat, ast.MatchSequence):
+            seq = v
+            if isinstance(seq, AList) and not seq.generic:
+                seq = list(seq.items)
+            if isinstance(seq, AList) and seq.generic:
+                # a list of symbolic length: only the shapes "exactly k items" (k fixed sub-patterns) and "anything" are decided
+                stars = [p_ for p_ in pat.patterns if isinstance(p_, ast.MatchStar)]
+                if not stars:
+                    k = len(pat.patterns)
+                    n = Aff.sym("len:list@%s" % seq.uid)
+                    I.path.cons.add(n - seq.min_len)
+                    if not (I.ge0(n - k) and I.ge0(Aff.const(k) - n)):
+                        return False
+                    if k == 0:
+                        return True
+                    reps = seq.items[seq.generic_from:] or seq.items
+                    if k == 1 and len(reps) == 1:
+                        return self.pattern_matches(pat.patterns[0], reps[0], binds, node)
+                self.unsupported(node, "sequence pattern over a list of symbolic length")
+            if isinstance(seq, (str, dict)) or not isinstance(seq, (list, tuple)):
+                if isinstance(seq, (Term, ARec, ASeq, AObj, AStruct, Aff, int, type(None), bool)):
+                    return False
+                self.unsupported(node, "sequence pattern over %r" % (seq,))
+            pats = list(pat.patterns)
+            star = [i for i, p_ in enumerate(pats) if isinstance(p_, ast.MatchStar)]
+            if not star:
+                if len(seq) != len(pats):
+                    return False
+                return all(self.pattern_matches(p_, x, binds, node) for p_, x in zip(pats, seq))
+            i = star[0]
+            if len(seq) < len(pats) - 1:
+                return False
+            head, tail = pats[:i], pats[i + 1:]
+            if not all(self.pattern_matches(p_, x, binds, node) for p_, x in zip(head, seq[:len(head)])):
+                return False
+            if tail and not all(self.pattern_matches(p_, x, binds, node) for p_, x in zip(tail, seq[len(seq) - len(tail):])):
+                return False
+            if pats[i].name is not None:
+                binds[pats[i].name] = AList(list(seq[len(head):len(seq) - len(tail)]), I.loop_depth)
+            return True
+        if isinstance(pat, ast.MatchMapping):
+            if not isinstance(v, dict):
+                return False
+            for kexp, sub in zip(pat.keys, pat.patterns):
+                key = _hashable(self.expr(kexp))
+                if key not in v or not self.pattern_matches(sub, v[key], binds, node):
+                    return False
+            if pat.rest is not None:
+                binds[pat.rest] = {k_: x for k_, x in v.items() if k_ not in [_hashable(self.expr(ke)) for ke in pat.keys]}
+            return True
+        self.unsupported(node, "pattern %s" % type(pat).__name__)
+
     def with_stmt(self, st: ast.With, k: int):
         """`with a as x, b as y: body` -- library context managers are opaque
         values bound to their target; a repo function decorated with
@@ -1064,6 +1237,13 @@ class Frame(object):
             if pending:
                 raise pending[0]
             return
+        if isinstance(ctx, AStruct) and ctx.kind == "suppress":
+            try:
+                return self.with_stmt(st, k + 1)
+            except RaiseSig as rs:
+                if any(self.exc_isinstance(rs.exc, t) for t in ctx.fields["classes"]):
+                    return None
+                raise
         if isinstance(ctx, AExitStack):
             if item.optional_vars is not None:
                 self.assign(item.optional_vars, ctx)
@@ -1200,7 +1380,17 @@ class Frame(object):
                 return None
 
             try:
-                I.call_function(it.fi, it.args, it.kwargs, st, on_yield=on_yield)
+                if it.closure_frame is not None:
+                    it.closure_frame.on_yield = on_yield
+                    I.frames.append(it.closure_frame)
+                    try:
+                        it.closure_frame.block(it.fi.node.body)
+                    except ReturnSig:
+                        pass
+                    finally:
+                        I.frames.pop()
+                else:
+                    I.call_function(it.fi, it.args, it.kwargs, st, on_yield=on_yield)
             except ConsumerSignal as cs:
                 if cs.sig is not None:
                     raise cs.sig
@@ -1220,6 +1410,13 @@ class Frame(object):
                 self.unsupported(st.iter, "iteration over the features of %r" % (it.rec,))
             it = coll
         if isinstance(it, AList) and it.generic:
+            if getattr(it, "source", None):
+                # a view of an input collection walked element by element: like the collection itself
+                used = {n.id for b in st.body for n in ast.walk(b) if isinstance(n, ast.Name)}
+                for nm, v in list(self.env.items()):
+                    if isinstance(v, dict) and not v and nm in used:
+                        self.env[nm] = AMap("map:" + nm, make_value=I.hooks.get("map_value"))
+                I.path.effects.append(("loop", it.source, it.items[0] if it.items else None))
             I.path.effects.append(("loop", "generic-list", it))
             I.loop_depth += 1
             try:
@@ -1459,6 +1656,17 @@ class Frame(object):
         return tuple(self._elts(e.elts))
 
     def e_List(self, e):
+        # [once, *generic]: the display keeps which items are repeated
+        gen = [i for i, x in enumerate(e.elts) if isinstance(x, ast.Starred)]
+        if len(gen) == 1:
+            v = self.expr(e.elts[gen[0]].value)
+            if isinstance(v, AList) and v.generic:
+                head = self._elts(e.elts[:gen[0]])
+                tail = self._elts(e.elts[gen[0] + 1:])
+                if not tail:
+                    out = AList(head + list(v.items), self.I.loop_depth, origin="L%d" % e.lineno)
+                    out.generic, out.min_len, out.generic_from = True, v.min_len, len(head) + v.generic_from
+                    return out
         return AList(self._elts(e.elts), self.I.loop_depth, origin="L%d" % e.lineno)
 
     def e_Dict(self, e):
@@ -1470,7 +1678,25 @@ class Frame(object):
         return d
 
     def e_JoinedStr(self, e):
-        return Term("fstring", *[self.expr(v.value) if isinstance(v, ast.FormattedValue) else v.value for v in e.values])
+        # an f-string is the format string it spells, applied to its expressions
+        fmt, args = "", []
+        for v in e.values:
+            if isinstance(v, ast.FormattedValue):
+                spec = ""
+                if v.format_spec is not None:
+                    if not all(isinstance(x, ast.Constant) for x in v.format_spec.values):
+                        self.unsupported(e, "computed format spec")
+                    spec = ":" + "".join(x.value for x in v.format_spec.values)
+                conv = {-1: "", 115: "!s", 114: "!r", 97: "!a"}.get(v.conversion, "")
+                fmt += "{" + conv + spec + "}"
+                args.append(self.expr(v.value))
+            else:
+                fmt += str(v.value).replace("{", "{{").replace("}", "}}")
+        if all(isinstance(a, (str, int)) and not isinstance(a, bool) for a in args):
+            return fmt.format(*args)
+        if any(isinstance(a, Aff) for a in args):
+            return AFormat(fmt, list(args), {})
+        return Term("format", Term(repr(fmt)), *[_t(a) for a in args])
 
     def e_Name(self, e):
         if e.id in self.env:
@@ -1568,6 +1794,10 @@ class Frame(object):
             hi = self.expr(e.slice.upper) if e.slice.upper is not None else None
             return self.slice(base, lo, hi, e)
         idx = self.expr(e.slice)
+        if isinstance(idx, AStruct) and idx.kind == "slice":
+            if idx.fields.get("step") is not None:
+                self.unsupported(e, "slice step")
+            return self.slice(base, idx.fields["lo"], idx.fields["hi"], e)
         return self.index(base, idx, e)
 
     def slice(self, base, lo, hi, node):
@@ -1728,6 +1958,14 @@ class Frame(object):
                 raise RaiseSig(AExc("TypeError", ["unsupported operand type(s) for %s: 'SeqRecord' and 'int'" % ("<<" if isinstance(op, ast.LShift) else ">>")], {}))
         if isinstance(op, ast.Mod) and isinstance(l, str):
             return Term("format", Term(repr(l)), r if isinstance(r, Term) else Term(repr(r)))
+        if isinstance(op, ast.BitOr) and isinstance(l, dict) and isinstance(r, dict):
+            out = dict(l)
+            out.update(r)
+            return out
+        if isinstance(op, ast.BitOr) and isinstance(l, Term) and isinstance(r, dict) and isinstance(node, ast.AugAssign):
+            # mapping |= {...}: an in-place update of the opaque mapping
+            I.path.effects.append(("mutate", l, "update", (r,)))
+            return l
         hook = I.hooks.get("binop")
         if hook is not None:
             res = hook(self, op, l, r, node)
@@ -1854,6 +2092,11 @@ class Frame(object):
     def e_IfExp(self, e):
         t = self.I.truth(self.expr(e.test), e.test)
         return self.expr(e.body if t else e.orelse)
+
+    def e_NamedExpr(self, e):
+        v = self.expr(e.value)
+        self.assign(e.target, v)
+        return v
 
     def e_Lambda(self, e):
         a = e.args
@@ -2095,27 +2338,59 @@ class Frame(object):
             return I.call_function(fn, list(args), dict(kwargs), node)
         if isinstance(fn, ClassInfo):
             return self.instantiate(fn, args, kwargs, node)
+        if isinstance(fn, LibRef) and fn.dotted.startswith("operator.") and fn.dotted.split(".")[-1] in (
+                "add", "sub", "mul", "mod", "floordiv", "lshift", "rshift", "or_", "and_", "concat", "eq", "ne", "lt", "le", "gt", "ge",
+                "is_", "is_not", "contains", "getitem", "not_", "truth", "neg"):
+            return self.apply_callable(ACallable("operator", fn.dotted.split(".")[-1]), args, kwargs, node)
         if isinstance(fn, LibRef):
             return lib_call(self, fn.dotted, args, kwargs, node)
         if isinstance(fn, RecType):
             if fn.circular:
                 return make_circular(self, args, kwargs, node)
             return lib_call(self, "Bio.SeqRecord.SeqRecord", args, kwargs, node)
+        if isinstance(fn, ACallable):
+            return self.apply_callable(fn, args, kwargs, node)
         if isinstance(fn, ALambda):
             a = fn.node.args
             if a.vararg or a.kwarg:
                 self.unsupported(node, "lambda with *args/**kwargs")
             params = [x.arg for x in a.posonlyargs + a.args] + [x.arg for x in a.kwonlyargs]
-            env = dict(fn.frame.env)  # the enclosing variables as they are now
-            env.update(fn.defaults)
+            env = ChainEnv(fn.frame.env)  # own names; the enclosing variables are read through, as they are at that moment
+            dict.update(env, fn.defaults)
             for nm, v in zip(params, args):
                 env[nm] = v
-            env.update(kwargs)
-            missing = [nm for nm in params if nm not in fn.defaults and nm not in env]
+            dict.update(env, kwargs)
+            missing = [nm for nm in params if not dict.__contains__(env, nm)]
             if len(args) > len(params) or missing:
                 raise RaiseSig(AExc("TypeError", ["<lambda>() arguments"], {}))
             sub = Frame(I, fn.frame.fi, env, module=fn.frame.m)
-            return sub.expr(fn.node.body)
+            if isinstance(fn.node, ast.Lambda):
+                return sub.expr(fn.node.body)
+            # a nested def: assignments stay local to the call (no nonlocal support), the enclosing variables are read late
+            if any(isinstance(n, (ast.Nonlocal, ast.Global)) for n in ast.walk(fn.node)):
+                self.unsupported(node, "nonlocal/global in a nested function")
+            if _is_generator(fn.node):
+                if node is not None and node is getattr(I, "lazy_gen_node", None):
+                    I.lazy_gen_node = None
+                    return AGenCall(fn, list(args), dict(kwargs), closure_frame=sub)
+                yielded = AList([], I.loop_depth, origin="yield:%s" % fn.node.name)
+                sub.on_yield = lambda v, _y=yielded: _gen_collect(I, _y, v)
+                I.frames.append(sub)
+                try:
+                    sub.block(fn.node.body)
+                except ReturnSig:
+                    pass
+                finally:
+                    I.frames.pop()
+                return yielded
+            I.frames.append(sub)
+            try:
+                sub.block(fn.node.body)
+            except ReturnSig as r:
+                return r.value
+            finally:
+                I.frames.pop()
+            return None
         if isinstance(fn, ANTType):
             vals = list(args) + [None] * (len(fn.fields) - len(args))
             for k, v in kwargs.items():
@@ -2127,6 +2402,60 @@ class Frame(object):
             return ANT.make(fn.fields, vals)
         if isinstance(fn, Term):
             return Term("call", fn, *[_t(a) for a in args])
+        self.unsupported(node, "call of %r" % (fn,))
+
+    def apply_callable(self, fn: "ACallable", args, kwargs, node):
+        I = self.I
+        k = fn.kind
+        if k == "partial":
+            f, pargs = fn.data[0], list(fn.data[1:])
+            kw = dict(fn.kw)
+            kw.update(kwargs)
+            return self.call_value(f, pargs + list(args), kw, node)
+        if k == "methodcaller":
+            name, margs = fn.data[0], list(fn.data[1:])
+            if len(args) != 1:
+                self.unsupported(node, "methodcaller applied to %d arguments" % len(args))
+            return self.call_value(self.getattr(args[0], name, node), margs, dict(fn.kw), node)
+        if k == "attrgetter":
+            if len(args) != 1:
+                self.unsupported(node, "attrgetter applied to %d arguments" % len(args))
+            outs = []
+            for path in fn.data:
+                v = args[0]
+                for a in path.split("."):
+                    v = self.getattr(v, a, node)
+                outs.append(v)
+            return outs[0] if len(outs) == 1 else tuple(outs)
+        if k == "itemgetter":
+            if len(args) != 1:
+                self.unsupported(node, "itemgetter applied to %d arguments" % len(args))
+            outs = []
+            for key in fn.data:
+                if isinstance(key, AStruct) and key.kind == "slice":
+                    outs.append(self.slice(args[0], key.fields["lo"], key.fields["hi"], node))
+                else:
+                    outs.append(self.index(args[0], key, node))
+            return outs[0] if len(outs) == 1 else tuple(outs)
+        if k == "operator":
+            op = fn.data[0]
+            binops = {"add": ast.Add, "sub": ast.Sub, "mul": ast.Mult, "mod": ast.Mod, "floordiv": ast.FloorDiv, "lshift": ast.LShift,
+                      "rshift": ast.RShift, "or_": ast.BitOr, "and_": ast.BitAnd, "concat": ast.Add}
+            cmps = {"eq": ast.Eq, "ne": ast.NotEq, "lt": ast.Lt, "le": ast.LtE, "gt": ast.Gt, "ge": ast.GtE, "is_": ast.Is, "is_not": ast.IsNot}
+            if op in binops and len(args) == 2:
+                return self.binop(binops[op](), args[0], args[1], node)
+            if op in cmps and len(args) == 2:
+                return I.cmp(cmps[op](), args[0], args[1], node)
+            if op == "contains" and len(args) == 2:
+                return I.contains(args[0], args[1])
+            if op == "getitem" and len(args) == 2:
+                return self.index(args[0], args[1], node)
+            if op == "not_" and len(args) == 1:
+                return not I.truth(args[0], node)
+            if op == "truth" and len(args) == 1:
+                return I.truth(args[0], node)
+            if op == "neg" and len(args) == 1 and isinstance(args[0], (Aff, int)):
+                return -Aff.of(args[0])
         self.unsupported(node, "call of %r" % (fn,))
 
     def instantiate(self, ci: ClassInfo, args, kwargs, node):
@@ -2148,9 +2477,11 @@ class Frame(object):
             return AExc(ci, args, kwargs, where="%s:%s" % (self.m.relpath if self.m else "?", getattr(node, "lineno", "?")))
         if ci.qualname == "moclo.record.CircularRecord":
             return make_circular(self, args, kwargs, node)
-        if any(isinstance(b, Ext) and b.dotted in ("typing.NamedTuple",) for b in ci.bases) and ci.node is not None:
-            fields = [st.target.id for st in ci.node.body if isinstance(st, ast.AnnAssign) and isinstance(st.target, ast.Name)]
-            return self.call_value(ANTType(ci.name, fields), args, kwargs, node)
+        nt_fields = _namedtuple_fields(p, ci)
+        if nt_fields is not None:
+            v = self.call_value(ANTType(ci.name, nt_fields), args, kwargs, node)
+            v._nt_class = ci
+            return v
         obj = AObj(ci, {}, name=ci.name)
         owner, init = p.class_attr_def(ci, "__init__")
         if isinstance(init, FuncInfo):
@@ -2172,6 +2503,16 @@ class AFormat(object):
 
     def __repr__(self):
         return "%r.format(%s)" % (self.fmt, ", ".join(map(repr, self.args)))
+
+
+class AMapGenView(object):
+    """keys() / values() of a dict whose every entry is described by one generic value"""
+
+    def __init__(self, m, which):
+        self.m, self.which = m, which
+
+    def __repr__(self):
+        return "%s(%r)" % (self.which, self.m)
 
 
 class AMapGen(object):
@@ -2247,6 +2588,29 @@ def make_circular(fr: Frame, args, kwargs, node):
     fr.unsupported(node, "CircularRecord construction")
 
 
+def _namedtuple_fields(p, ci):
+    """field names when the class (or a class on its MRO) derives from a namedtuple, in any of the three spellings"""
+    for c in p.mro(ci):
+        node = getattr(c, "node", None)
+        if node is None:
+            continue
+        for b in node.bases:
+            if isinstance(b, ast.Call) and ast.unparse(b.func) in ("collections.namedtuple", "namedtuple", "typing.NamedTuple", "NamedTuple") and len(b.args) >= 2:
+                try:
+                    spec = ast.literal_eval(b.args[1])
+                except Exception:
+                    # [("start", int), ...]: keep the names
+                    spec = [el.elts[0].value for el in b.args[1].elts] if isinstance(b.args[1], (ast.List, ast.Tuple)) and all(
+                        isinstance(el, (ast.Tuple, ast.List)) and el.elts and isinstance(el.elts[0], ast.Constant) for el in b.args[1].elts) else None
+                if isinstance(spec, str):
+                    return spec.replace(",", " ").split()
+                if isinstance(spec, (list, tuple)):
+                    return [x[0] if isinstance(x, (list, tuple)) else x for x in spec]
+            if ast.unparse(b) in ("typing.NamedTuple", "NamedTuple"):
+                return [st.target.id for st in node.body if isinstance(st, ast.AnnAssign) and isinstance(st.target, ast.Name)]
+    return None
+
+
 def lib_getattr(fr: Frame, base, a: str, node):
     I = fr.I
     if isinstance(base, AExitStack):
@@ -2263,6 +2627,16 @@ def lib_getattr(fr: Frame, base, a: str, node):
     if isinstance(base, ANT):
         if a in base._nt_fields:
             return base[base._nt_fields.index(a)]
+        if base._nt_class is not None:
+            owner, raw = I.p.class_attr_def(base._nt_class, a)
+            if isinstance(raw, FuncInfo):
+                if raw.kind == "property":
+                    return I.call_function(raw, [base], {}, node)
+                if raw.kind == "classmethod":
+                    return BoundMethod("repo", raw, a, extra=[base._nt_class])
+                if raw.kind == "staticmethod":
+                    return BoundMethod("repo", raw, a, extra=[])
+                return BoundMethod("repo", raw, a, extra=[base])
         if a == "_fields":
             return tuple(base._nt_fields)
         if a == "_asdict":
@@ -2505,6 +2879,13 @@ def lib_call_method(fr: Frame, bm: BoundMethod, args, kwargs, node):
             t.items.append(args[0])
             I.path.effects.append(("mutate", t, "append", args))
             return None
+        if name == "appendleft" and len(args) == 1 and not t.generic and t.depth >= I.loop_depth:
+            t.items.insert(0, args[0])
+            return None
+        if name in ("popleft", "pop") and not args and not t.generic:
+            if not t.items:
+                raise RaiseSig(AExc("IndexError", ["pop from an empty %s" % ("deque" if name == "popleft" else "list")], {}))
+            return t.items.pop(0 if name == "popleft" else -1)
         if name == "extend" and isinstance(args[0], AList):
             t.items.extend(args[0].items)
             t.generic = t.generic or args[0].generic or t.depth < I.loop_depth
@@ -2584,6 +2965,8 @@ def map_method(fr: Frame, m, name, args, kwargs, node):
     if isinstance(m, AMapGen):
         if name in ("items",):
             return Term("items", m)
+        if name in ("keys", "values") and not args:
+            return AMapGenView(m, name)
         fr.unsupported(node, "method %s of generic dict" % name)
     if name == "setdefault":
         key, val = args[0], args[1] if len(args) > 1 else None
@@ -2699,6 +3082,52 @@ def lib_call(fr: Frame, dotted: str, args, kwargs, node):
             m = getattr(_re, short)(args[0], args[1], *args[2:])  # a pure library function of constants
             return None if m is None else AStruct("re-match-const", m=m)
         return Term(short, Term(repr(args[0])), _t(args[1]))
+    if dotted == "collections.deque" and len(args) <= 1 and not kwargs:
+        out = AList(list(args[0].items) if args and isinstance(args[0], AList) and not args[0].generic else (list(args[0]) if args and isinstance(args[0], (list, tuple)) else []),
+                    I.loop_depth, origin="deque")
+        if args and not isinstance(args[0], (list, tuple)) and not (isinstance(args[0], AList) and not args[0].generic):
+            fr.unsupported(node, "deque of %r" % (args[0],))
+        return out
+    if dotted in ("collections.OrderedDict", "builtins.dict") and len(args) == 1 and isinstance(args[0], AList) and not args[0].generic \
+            and all(isinstance(x, tuple) and len(x) == 2 for x in args[0].items):
+        d = {_hashable(k): v for k, v in args[0].items}
+        d.update(kwargs)
+        return d
+    if dotted == "collections.OrderedDict" and not args:
+        return dict(kwargs)
+    if dotted == "builtins.slice" and 1 <= len(args) <= 3 and not kwargs:
+        a = list(args)
+        if len(a) == 1:
+            a = [None, a[0]]
+        return AStruct("slice", lo=a[0], hi=a[1], step=a[2] if len(a) > 2 else None)
+    if dotted == "functools.partial" and args:
+        return ACallable("partial", *args, **kwargs)
+    if dotted == "functools.reduce" and len(args) in (2, 3):
+        seq = args[1]
+        if isinstance(seq, AList) and not seq.generic:
+            seq = list(seq.items)
+        if not isinstance(seq, (list, tuple)):
+            fr.unsupported(node, "reduce over %r" % (seq,))
+        seq = list(seq)
+        if len(args) == 3:
+            acc = args[2]
+        elif seq:
+            acc, seq = seq[0], seq[1:]
+        else:
+            raise RaiseSig(AExc("TypeError", ["reduce() of empty iterable with no initial value"], {}))
+        for x in seq:
+            acc = fr.call_value(args[0], [acc, x], {}, node)
+        return acc
+    if dotted in ("operator.methodcaller", "operator.attrgetter", "operator.itemgetter") and args:
+        if short != "itemgetter" and not all(isinstance(a, str) for a in (args if short == "attrgetter" else args[:1])):
+            fr.unsupported(node, "%s with a non-constant name" % short)
+        return ACallable(short, *args, **kwargs)
+    if dotted == "itertools.repeat" and len(args) == 1:
+        return ARepeat(args[0])
+    if dotted in ("builtins.map", "builtins.filter", "builtins.zip"):
+        return _map_filter_zip(fr, short, args, node)
+    if dotted == "contextlib.suppress":
+        return AStruct("suppress", classes=list(args))
     if dotted == "contextlib.ExitStack" and not args and not kwargs:
         return AExitStack()
     if dotted == "builtins.isinstance":
@@ -2776,6 +3205,17 @@ def lib_call(fr: Frame, dotted: str, args, kwargs, node):
         if len(args) > 1:
             return args[1]
         raise RaiseSig(AExc("StopIteration", [], {}))
+    if dotted == "builtins.next" and args and isinstance(args[0], AList) and args[0].generic:
+        lst = args[0]
+        reps = lst.items[lst.generic_from:] or lst.items
+        if lst.generic_from > 0:
+            return lst.items[0]
+        if reps:
+            # the representative iteration did yield on this path: the first element exists (as for a lazy scan)
+            return reps[0]
+        if len(args) > 1:
+            return args[1]
+        raise RaiseSig(AExc("StopIteration", [], {}))
     if dotted == "builtins.next" and args and isinstance(args[0], AList) and not args[0].generic:
         if args[0].items:
             return args[0].items[0]
@@ -2812,6 +3252,8 @@ def lib_call(fr: Frame, dotted: str, args, kwargs, node):
     if dotted == "builtins.enumerate":
         return Term("enumerate", _t(args[0]))
     if dotted == "builtins.dict":
+        if len(args) == 1 and not kwargs and isinstance(args[0], Term) and args[0].op == "items" and args[0].args and isinstance(args[0].args[0], AMapGen):
+            return AMapGen(args[0].args[0].name, args[0].args[0].value)
         if not args and not kwargs:
             return {}
         if len(args) == 1 and isinstance(args[0], dict) and not kwargs:
@@ -2925,6 +3367,165 @@ TYPE_TAGS = {
 }
 
 
+def _map_filter_zip(fr: Frame, which: str, args, node):
+    """map / filter / zip, evaluated eagerly into the shapes a comprehension over the same iterables gives (a concrete
+    list, a generic list with one representative image, or a lazy scan over a range)."""
+    I = fr.I
+    if which == "filter":
+        if len(args) != 2:
+            fr.unsupported(node, "filter arguments")
+        pred, it = args
+
+        def keep(x):
+            v = x if pred is None else fr.call_value(pred, [x], {}, node)
+            return I.truth(v, node)
+
+        if isinstance(it, AScan):
+            return AScan([x for x in it.items if keep(x)])
+        if isinstance(it, AList) and it.generic:
+            out = AList([], I.loop_depth, origin=it.uid)
+            out.generic, out.min_len, out.generic_from = True, 0, it.generic_from
+            if getattr(it, "source", None):
+                out.source, out.filtered = it.source, True
+            for i, x in enumerate(it.items):
+                if keep(x):
+                    out.items.append(x)
+            return out
+        if isinstance(it, AList):
+            it = list(it.items)
+        if isinstance(it, str):
+            it = list(it)
+        if isinstance(it, dict):
+            it = list(it.keys())
+        if isinstance(it, (list, tuple)):
+            return AList([x for x in it if keep(x)], I.loop_depth)
+        if isinstance(it, (Term, ACollection)):
+            return Term("filter", _t(it), _t(pred))
+        fr.unsupported(node, "filter over %r" % (it,))
+    f = args[0] if which == "map" else None
+    its = list(args[1:] if which == "map" else args)
+    if not its:
+        fr.unsupported(node, "%s without iterables" % which)
+
+    def image(elems):
+        if which == "zip":
+            return tuple(elems)
+        return fr.call_value(f, list(elems), {}, node)
+
+    finite = [x for x in its if not isinstance(x, ARepeat)]
+    if not finite:
+        fr.unsupported(node, "%s over endless iterables only" % which)
+    # a dict described entry-wise: map over its values gives the values of the mapped dict; zip(keys, values') its items
+    if which == "map" and len(its) == 1 and isinstance(its[0], AMapGenView) and its[0].which == "values":
+        return AMapGenView(AMapGen(its[0].m.name, image([its[0].m.value])), "values")
+    if which == "zip" and len(its) == 2 and isinstance(its[1], AMapGenView) and its[1].which == "values" and (
+            (isinstance(its[0], AMapGenView) and its[0].which == "keys" and its[0].m.name == its[1].m.name)
+            or (isinstance(its[0], AMapGen) and its[0].name == its[1].m.name)):
+        return Term("items", its[1].m)
+    # ranges: one generic position i; paired ranges advance together
+    if all(isinstance(x, ARange) for x in finite):
+        r0 = finite[0]
+        if any(x.desc != r0.desc for x in finite):
+            fr.unsupported(node, "%s over ranges of different directions" % which)
+        I.path.effects.append(("loop", "range-desc" if r0.desc else "range", r0.lo, r0.hi))
+        if not I.ge0(Aff.of(r0.hi) - Aff.of(r0.lo) - 1):
+            return AScan([])
+        i = Aff.sym("i")
+        I.path.cons.add(i - Aff.of(r0.lo))
+        I.path.cons.add(Aff.of(r0.hi) - i - 1)
+        elems = []
+        for x in its:
+            if isinstance(x, ARepeat):
+                elems.append(x.value)
+            else:
+                elems.append(i + (Aff.of(x.lo) - Aff.of(r0.lo)))
+        return AScan([image(elems)])
+    conc = []
+    for x in its:
+        if isinstance(x, ARepeat):
+            conc.append(x)
+        elif isinstance(x, AList) and not x.generic:
+            conc.append(list(x.items))
+        elif isinstance(x, (list, tuple)):
+            conc.append(list(x))
+        elif isinstance(x, str):
+            conc.append(list(x))
+        elif isinstance(x, dict):
+            conc.append(list(x.keys()))
+        else:
+            conc = None
+            break
+    if conc is not None:
+        n = min(len(c) for c in conc if not isinstance(c, ARepeat))
+        return AList([image([(c.value if isinstance(c, ARepeat) else c[k]) for c in conc]) for k in range(n)], I.loop_depth)
+    # one generic / opaque source (the others constant per element)
+    gens = [x for x in finite if (isinstance(x, AList) and x.generic) or isinstance(x, (ACollection, Term, AFeatList))]
+    if len(gens) == len(finite) and len({id(x) for x in gens}) == 1:
+        src = gens[0]
+        if isinstance(src, AFeatList):
+            src = src.rec.attrs.get("feature_coll") or Term("features", src.rec.ident)
+        if isinstance(src, AList):
+            out = AList([], I.loop_depth, origin=src.uid)
+            out.generic, out.min_len, out.generic_from = True, src.min_len, src.generic_from
+            if getattr(src, "source", None):
+                out.source, out.filtered = src.source, getattr(src, "filtered", False)
+            I.loop_depth += 1
+            try:
+                for x in src.items:
+                    out.items.append(image([(c.value if isinstance(c, ARepeat) else x) for c in its]))
+            finally:
+                I.loop_depth -= 1
+            return out
+        if isinstance(src, ACollection):
+            elem = src.make_elem()
+            I.loop_depth += 1
+            try:
+                val = image([(c.value if isinstance(c, ARepeat) else elem) for c in its])
+            finally:
+                I.loop_depth -= 1
+            out = AList([val], I.loop_depth, origin="map:%s" % src.name)
+            out.generic = True
+            out.source = src.name
+            out.filtered = False
+            return out
+        elem = I.new_term("elem")
+        return Term("map", src, _t(image([(c.value if isinstance(c, ARepeat) else elem) for c in its])), Term("over", elem))
+    # several views of one input collection, walked in step: the collection itself and lists mapped from it
+    def src_name(x):
+        if isinstance(x, AFeatList):
+            coll = x.rec.attrs.get("feature_coll")
+            return coll.name if isinstance(coll, ACollection) else None
+        if isinstance(x, ACollection):
+            return x.name
+        if isinstance(x, AList) and x.generic and getattr(x, "source", None) and len(x.items) == 1 and not getattr(x, "filtered", False):
+            return x.source
+        return None
+
+    names = {src_name(x) for x in finite}
+    if len(names) == 1 and None not in names:
+        elems = []
+        for x in its:
+            if isinstance(x, ARepeat):
+                elems.append(x.value)
+            elif isinstance(x, AFeatList):
+                elems.append(x.rec.attrs["feature_coll"].make_elem())
+            elif isinstance(x, ACollection):
+                elems.append(x.make_elem())
+            else:
+                elems.append(x.items[0])
+        I.loop_depth += 1
+        try:
+            val = image(elems)
+        finally:
+            I.loop_depth -= 1
+        out = AList([val], I.loop_depth, origin="map:%s" % names.copy().pop())
+        out.generic = True
+        out.source = names.pop()
+        out.filtered = False
+        return out
+    fr.unsupported(node, "%s over %r" % (which, its))
+
+
 def lib_isinstance(fr: Frame, v, t, node):
     I = fr.I
     ts = t if isinstance(t, tuple) else (t,)
@@ -2943,6 +3544,10 @@ def lib_isinstance(fr: Frame, v, t, node):
         tags = {type(v).__name__}
     elif isinstance(v, AList):
         tags = {"list"}
+    elif isinstance(v, AStruct):
+        tags = {v.kind}
+    elif isinstance(v, (Aff,)):
+        tags = {"int"}
     elif isinstance(v, bool):
         tags = {"bool", "int"}
     elif v is None:
